@@ -55,7 +55,10 @@ class Recorder:
         o._register_new_invocations = reg
 
 
-def judge(ctx: Ctx, kind: str, app, recorder: Recorder, doc_edges: set, where: str, extra: dict | None = None) -> None:
+def judge(ctx: Ctx, kind: str, app, recorder: Recorder, doc_edges: set, where: str, extra: dict | None = None, one_changer: bool = False) -> None:
+    """`one_changer`: every change of the scenario was made by ONE thread, one after the other (only the background writers
+    were re-ordered / late): then the list `get_history` hands out - which it documents as ordered by time - must itself be
+    in the order of the changes, however late each writer ran"""
     per: dict[str, list] = {}
     for i, st, r, t in recorder.log:
         per.setdefault(i, []).append((st, r, t))
@@ -80,6 +83,12 @@ def judge(ctx: Ctx, kind: str, app, recorder: Recorder, doc_edges: set, where: s
                        f"[{kind}] {where}: after flushing, history of an invocation differs from its status changes: missing {[(s, r) for s, r, _ in missing]}, not-a-change/duplicated {[(s, r) for s, r, _ in dup]}",
                        rep)
             continue
+        if one_changer and len({x[2] for x in got}) == len(got) and len({h.timestamp for h in hist}) == len(hist):
+            by_change = [x[0] for x in sorted(got, key=lambda x: x[2])]
+            if [x[0] for x in got] != by_change:
+                ctx.report(f"history-order-depends-on-writers[{kind}]:{where}",
+                           f"[{kind}] {where}: one thread made the changes {by_change} in this order; get_history (\"ordered by timestamp\") hands them out as {[x[0] for x in got]} - "
+                           f"the order follows WHEN the background writers ran, not when the changes happened", rep)
         ordered = sorted(got, key=lambda x: x[2])
         prev = "START"
         ok = True
@@ -146,7 +155,7 @@ def sequential(ctx: Ctx, kind: str, doc_edges: set) -> None:
             ctx.rng.shuffle(defer.pending)
             defer.flush()
             flush(app)
-            judge(ctx, kind, app, rec, doc_edges, "sequential-lifecycles")
+            judge(ctx, kind, app, rec, doc_edges, "sequential-lifecycles", one_changer=True)
             ctx.sample({"backend": kind, "round": rnd, "transitions": len(rec.log), "invocations": len({x[0] for x in rec.log})}, cap=4)
     finally:
         defer.uninstall()
@@ -268,7 +277,7 @@ def overlapping_writers(ctx: Ctx, kind: str, doc_edges: set) -> None:
                 for w in writers[4:]:
                     w.run_now()
                 flush(app)
-                judge(ctx, kind, app, rec, doc_edges, f"overlapping-writers:{len(writers)}", {"schedule": run.choices})
+                judge(ctx, kind, app, rec, doc_edges, f"overlapping-writers:{len(writers)}", {"schedule": run.choices}, one_changer=True)
                 del app.orchestrator._atomic_status_transition
                 del app.orchestrator._register_new_invocations
                 return run
@@ -279,6 +288,78 @@ def overlapping_writers(ctx: Ctx, kind: str, doc_edges: set) -> None:
         sched.uninstall()
         defer.uninstall()
     ctx.notes[f"overlapping_writer_schedules_{kind}"] = total
+
+
+def flush_waits_for_every_writer(ctx: Ctx, kind: str) -> None:
+    """"once pending history writes have been flushed": two actors record a change of ONE invocation at the same time (the second
+    anywhere between the source lines of the first's `add_history`), the writers they spawn are SLOW (held in `_add_histories`);
+    `wait_for_all_async_operations` must not return before both entries are stored - whatever the interleaving of the two
+    registrations of a writer."""
+    import threading as _th
+
+    from pynenc.invocation.status import InvocationStatus as S, InvocationStatusRecord
+    from pynenc.state_backend.base_state_backend import BaseStateBackend
+    from harness.sched_line import LineSched
+    from harness.sched_sql import PrefixChooser
+
+    sched = LineSched(line_targets=[BaseStateBackend], max_steps=4000)
+    sched.install()
+    n = 0
+    try:
+        app = make_app(kind, ctx.tmp, app_id=f"c10flush{kind}")
+        sb = app.state_backend
+        t = app.task(T.prog_body)
+        real = sb._add_histories
+
+        def run_one(chooser, order):
+            app.purge()
+            inv = t("ok").invocation_id
+            flush(app)
+            gate = _th.Event()
+
+            def slow(ids, h):
+                if h.status_record.status == S.PENDING:      # ONE slow writer; the other actor's writer finishes at once
+                    gate.wait(10)
+                return real(ids, h)
+
+            sb._add_histories = slow  # type: ignore[method-assign]
+            try:
+                recs = [InvocationStatusRecord(S.PENDING, "rA"), InvocationStatusRecord(S.PENDING_RECOVERY, "rR")]
+                bodies = [lambda: sb.add_history(inv, recs[0], rctx("rA")), lambda: sb.add_history(inv, recs[1], rctx("rR"))]
+                run = sched.run(bodies if order == 0 else bodies[::-1], chooser)
+                helper = _th.Thread(target=sb.wait_for_all_async_operations, daemon=True)
+                helper.start()
+                helper.join(0.04)
+                early = not helper.is_alive()
+                stored_at_return = [h.status_record.status.value for h in sb.get_history(inv)] if early else None
+                gate.set()
+                helper.join(10)
+                flush(app)
+            finally:
+                gate.set()
+                del sb._add_histories
+            run.meta = (early, stored_at_return, inv)  # type: ignore[attr-defined]
+            return run
+
+        for order in (0, 1):
+            steps = len(run_one(PrefixChooser([0] * 5000), order).choices)
+            for k in range(steps + 1):
+                run = run_one(PrefixChooser([0] * k + [1] * 5000), order)
+                early, stored, inv = run.meta  # type: ignore[attr-defined]
+                n += 1
+                ctx.count()
+                ctx.distinct((kind, "flush-waits", order, k))
+                if early:
+                    ctx.report(f"flush-returns-before-writer[{kind}]",
+                               f"[{kind}] two actors record a change of one invocation (the second enters after step {k} of the first's add_history); the PENDING writer is still "
+                               f"held, yet wait_for_all_async_operations() returned: the history read at that moment is {stored} (PENDING and PENDING_RECOVERY were recorded)",
+                               {"backend": kind, "scenario": "flush-waits", "order": order, "second_enters_after_step": k, "schedule": run.choices})
+                got = sorted(h.status_record.status.value for h in sb.get_history(inv))
+                if got != ["pending", "pending_recovery", "registered"]:
+                    ctx.report(f"history-mismatch[{kind}]:flush-waits", f"[{kind}] after both writers finished the history is {got}", {"backend": kind, "scenario": "flush-waits", "order": order, "k": k})
+    finally:
+        sched.uninstall()
+    ctx.notes[f"flush_wait_schedules_{kind}"] = n
 
 
 def adjacent_transitions(ctx: Ctx, kind: str, doc_edges: set) -> None:
@@ -404,6 +485,7 @@ def run(ctx: Ctx) -> None:
         batches(ctx, kind, doc_edges)
         overlapping_writers(ctx, kind, doc_edges)
         adjacent_transitions(ctx, kind, doc_edges)
+        flush_waits_for_every_writer(ctx, kind)
         concurrent(ctx, kind, doc_edges)
     ctx.obligation("flushed history == logged transitions (multiset, own invocation, documented path by time of change) on Mem and SQLite",
                    not any(v["signature"].startswith("history-") for v in ctx.violations), "see violations")
